@@ -25,7 +25,7 @@ table = '\n'.join([
     '|----|----------|--------|-------------------|----------|--------------|'] + rows)
 p = V / 'DESIGN.md'
 s = p.read_text()
-s = re.sub(r'(<!-- SEEDED-TABLE-BEGIN -->\n).*?(\n<!-- SEEDED-TABLE-END -->)', lambda m: m.group(1) + table + m.group(2), s,
-           flags=re.S)
+s = re.sub(r'(<!-- SEEDED-TABLE-BEGIN -->).*?(<!-- SEEDED-TABLE-END -->)',
+           lambda m: m.group(1) + '\n' + table + '\n' + m.group(2), s, flags=re.S)
 p.write_text(s)
 print(n, n_det)
